@@ -43,8 +43,17 @@ def compare(a_lines, b_lines, views=('obs', 'shape', 'memo', 'ident', 'fresh')):
     returns {view: (opno, a_line, b_line)}"""
     a, b = by_op(a_lines), by_op(b_lines)
     diffs = {}
+    faulted = False
     for n in sorted(set(a) | set(b)):
         ao, bo = a.get(n), b.get(n)
+        if ao is not None and bo is not None and ao['R'] == ['R %d fault' % n]:
+            # fault injection (implementation side only, FORMAT.md `fault`): the operation was abandoned half
+            # way. Its result is not compared, and from here on the memo view is schedule dependent
+            # (which nodes were hashed before the fault) - the memo *oracle* still audits it.
+            faulted = True
+            ao = dict(ao)
+            ao['R'] = bo['R']
+            views = tuple(v for v in views if v != 'memo')
         if ao is None or bo is None:
             diffs.setdefault('obs', (n, (ao or {}).get('R', ['<missing>'])[0] if ao else '<missing>',
                                      (bo or {}).get('R', ['<missing>'])[0] if bo else '<missing>'))
